@@ -327,8 +327,8 @@ func (n *cnNet) vaultProjection(t mkvs.ImmutableKeyValueTree) ([]map[string]any,
 			return o
 		}
 		out = append(out, map[string]any{"id": name, "creator": n.nameOf(v.Creator), "vid": int64(v.ID), "active": v.IsActive(), "nonce": int64(v.Nonce),
-			"admin": map[string]any{"a": names(&v.AdminAuthority), "t": int64(v.AdminAuthority.Threshold)},
-			"susp":  map[string]any{"a": names(&v.SuspendAuthority), "t": int64(v.SuspendAuthority.Threshold)},
+			"admin":   map[string]any{"a": names(&v.AdminAuthority), "t": int64(v.AdminAuthority.Threshold)},
+			"susp":    map[string]any{"a": names(&v.SuspendAuthority), "t": int64(v.SuspendAuthority.Threshold)},
 			"pending": pend, "states": states})
 	}
 	sort.Slice(out, func(i, j int) bool { return out[i]["id"].(string) < out[j]["id"].(string) })
